@@ -256,6 +256,9 @@ def run(ctx):
     rule_r5(facts, ctx)
     from . import c16
     c16.rule_r7(facts, ctx, rule_id="C14.R6")
+    from . import c19
+    c16.rule_r5(facts, c19._Retag(ctx, "C16.R5", "C14.R8"))      # read-ahead beyond what the output takes is invisible to the EOF decision
+    ctx.floor("C14.R8", 2, "read(2) staging buffers of FileSource and SigMFSource (same rule as C16.R5)")
     c16.rule_r9(facts, ctx, rule_id="C14.R7", scope=lambda b: b.file in ("src/file_source.rs", "src/tcp_source.rs", "src/sigmf.rs", "src/au.rs"))
     ctx.floor("C14.R7", 4, "EOF verdicts of the byte sources (FileSource, TcpSource, SigMFSource)")
     ctx.floor("C14.R6", 1, "SigMFSource's restart seek (archive member offset) - same rule as C16.R7")
